@@ -131,6 +131,16 @@ func (cls *CachedLocations) Open(ctx *Context, sys *System, name string, check b
 	loc, dead := cls.expire(ctx, sys, name, false)
 
 	var err error
+	if loc == nil && !dead {
+		if cl, have := cls.locs[name]; have {
+			// Another request made this entry and has not loaded
+			// the location yet: use it (Get loads once, under the
+			// entry's lock) instead of replacing it by a second
+			// entry that would load the location again.
+			cls.Unlock()
+			return cl.Get(ctx, sys, name, check)
+		}
+	}
 	if loc == nil || dead {
 		Log(INFO, ctx, "CachedLocations.Open", "name", name, "cached", "empty")
 		ctl := sys.Control()
